@@ -441,7 +441,13 @@ func genParserInput(t *rapid.T, ep string) ParserInput {
 			lines := strings.SplitAfter(v, "\n")
 			for i := rapid.IntRange(1, 3).Draw(t, "lm"); i > 0 && len(lines) > 0; i-- {
 				p := rapid.IntRange(0, len(lines)-1).Draw(t, "lp")
-				switch rapid.IntRange(0, 4).Draw(t, "lop") {
+				switch rapid.IntRange(0, 5).Draw(t, "lop") {
+				case 5:
+					// the field keeps its name and loses its value: nothing, blanks, or nothing but
+					// empty-line markers behind it
+					if k := strings.IndexByte(lines[p], ':'); k > 0 && lines[p][0] != ' ' && lines[p][0] != '\t' && lines[p][0] != '#' {
+						lines[p] = lines[p][:k+1] + rapid.SampledFrom([]string{"\n", " \n", "\t \n", "\n .\n", "\n .\n .\n", " \n .\n .\n .\n", "\n . \n .\t\n"}).Draw(t, "emptied")
+					}
 				case 4:
 					// the field once more under other capitalisations (and without the original one):
 					// whatever a parser makes of that, it has to make the same of it every time
@@ -480,7 +486,7 @@ func genParserInput(t *rapid.T, ep string) ParserInput {
 
 var specC18Total = Register(&Spec[ParserInput]{
 	Prop: "C18", Name: "total",
-	Rule:  "for each of 13 parser entry points (version.Parse; dependency.Parse / ParseArch / ParseArchitectures; ParagraphReader.All; ParseDsc, ParseChanges, ParseControl, ParseBinaryIndex, ParseSourceIndex, Unmarshal(&deb.Control); changelog.Parse / ParseOne) inputs from that parser's own grammar generator (4/20), line- and byte-level mutations (delete, duplicate, join, swap lines; one field repeated under lower- and upper-case spellings of its name) and truncations of them (14/22), one or two words of a valid input replaced by / glued to a soup of 1..3 tokens of the formats' own punctuation, or a valid input inside a clearsign frame in the shapes and half-shapes such frames come in (2/22), raw bytes, or a valid input with a line-start marker ('#', '-', '/*', '$Id$', blank, '.', NUL ...) put in front of, behind or inside it with and without a line end (1/21), a valid input - or the format's smallest unit, 1000 times and more - repeated up to 64 KiB, in half of the cases with two to four copies damaged in different ways (1/22), and inputs whose total length or last-line length is exactly 4096*k-1, 4096*k or 4096*k+1 with and without a final newline (1/21). Oracle: the call returns within 60 s without panicking; when it returns an error no pointer/slice/map result is non-nil and non-empty and a struct result (version.Parse) is the zero value; a second call - made after 0..2 other generated inputs (often failing ones) went through the same entry point - gives a deeply equal value, the same error-ness and the same error text (big inputs: four more calls). Non-trivial: grammar-derived input (valid, mutated or big); distinct by (entry point, bytes).",
+	Rule:  "for each of 13 parser entry points (version.Parse; dependency.Parse / ParseArch / ParseArchitectures; ParagraphReader.All; ParseDsc, ParseChanges, ParseControl, ParseBinaryIndex, ParseSourceIndex, Unmarshal(&deb.Control); changelog.Parse / ParseOne) inputs from that parser's own grammar generator (4/20), line- and byte-level mutations (delete, duplicate, join, swap lines; one field repeated under lower- and upper-case spellings of its name; one field's value replaced by nothing, blanks, or one to three empty-line markers) and truncations of them (14/22), one or two words of a valid input replaced by / glued to a soup of 1..3 tokens of the formats' own punctuation, or a valid input inside a clearsign frame in the shapes and half-shapes such frames come in (2/22), raw bytes, or a valid input with a line-start marker ('#', '-', '/*', '$Id$', blank, '.', NUL ...) put in front of, behind or inside it with and without a line end (1/21), a valid input - or the format's smallest unit, 1000 times and more - repeated up to 64 KiB, in half of the cases with two to four copies damaged in different ways (1/22), and inputs whose total length or last-line length is exactly 4096*k-1, 4096*k or 4096*k+1 with and without a final newline (1/21). Oracle: the call returns within 60 s without panicking; when it returns an error no pointer/slice/map result is non-nil and non-empty and a struct result (version.Parse) is the zero value; a second call - made after 0..2 other generated inputs (often failing ones) went through the same entry point - gives a deeply equal value, the same error-ness and the same error text (big inputs: four more calls). Non-trivial: grammar-derived input (valid, mutated or big); distinct by (entry point, bytes).",
 	Check: checkParserInput,
 })
 
